@@ -683,7 +683,7 @@ def _finish_reader(reader, consumed_everything: bool, threads_before: int):
         READER_STATS["threads_left_over"] += threading.active_count() - threads_before
 
 
-def run_predict(predictor, provider: str, source):
+def run_predict(predictor, provider: str, source, video_range=None):
     """The REAL `make_pipeline` (reader construction, `preprocess` switch) and
     `predict(make_labels=False)` (`_predict_generator`) on an in-memory source.  Whatever happens to the
     consumer, the reader thread is terminated before this returns (see `_finish_reader`)."""
@@ -691,7 +691,11 @@ def run_predict(predictor, provider: str, source):
     threads_before = threading.active_count()
     READER_STATS["predict_runs"] += 1
     with patched_loaders({"mem": source}):
-        predictor.make_pipeline(provider, "mem")
+        if video_range is not None and provider == "VideoReader":
+            # the documented frame range of the video provider: frames start_idx … end_idx-1
+            predictor.make_pipeline(provider, "mem", video_start_idx=video_range[0], video_end_idx=video_range[1])
+        else:
+            predictor.make_pipeline(provider, "mem")
     done = False
     try:
         out = predictor.predict(make_labels=False)
